@@ -14,23 +14,27 @@ LEVEL_TEXT = ("Coq theorems about the cache model: eviction removes exactly the 
               "comes from one of these sources. The history-level statement chk_C05 (removed exactly when PTR / last SRV "
               "/ last address / verify timeout runs out, wake-up requested for that instant, never while PTR+SRV+address "
               "have more than 1 s left, no ServiceResolved afterwards without new records) is REFUTED for the faithful "
-              "model in four classes listed as known findings; outside them it is checked by the monitor on every "
-              "generated history of the implementation. Model tied to the Rust daemon by the K6 simulation")
+              "model in the three classes that stay as known findings (PTR variant expiry, expiry hidden during the PTR's "
+              "goodbye second, address expiry under two browsed PTR names); outside them it is checked by the monitor on "
+              "every generated history of the implementation; the spec cache chk_C05 judges against is proved to be the "
+              "model's cache for all histories. Model tied to the Rust daemon by the K6 simulation")
 TECHNIQUE = ("machine-checked proof in Coq (eviction / goodbye / verify specifications, refutation witnesses) + "
              "model/implementation correspondence on the simulated daemon + history-level monitor with virtual timestamps")
 LEVELS = ("K6 sim: one real daemon thread in the simulated world, timer-exact runs (run_until jumps to the wake-up the "
           "daemon asked for) and late wake-ups; events with virtual timestamps, questions and requested wake-ups")
 RULE = ("announcement / goodbye / silence histories of 1-3 instances and responders on 1-2 interfaces: TTLs 1 s .. 4500 s "
         "(75 min), goodbyes full/partial/duplicated/lost, responders that vanish, refresh questions answered or not, "
-        "verify with timeouts 500 ms .. 10 s answered or not, hosts shared between instances, restarts (goodbye then "
-        "announcement within a second), stop/re-browse; special classes: SRV target in mixed case, instance under type "
-        "and subtype PTR, PTR delivered with and without cache-flush bit; non-trivial = at least one event")
+        "verify with timeouts 500 ms .. 10 s answered or not, hosts shared between instances and spelled in mixed case, "
+        "address-only goodbyes and addresses with shorter TTL than SRV/PTR, restarts (goodbye then announcement within "
+        "a second), stop/re-browse; special classes: instance under type and subtype PTR with the SRV running out first "
+        "(must agree exactly) or the address running out first (known finding, hash-order dependent), PTR delivered "
+        "with and without cache-flush bit; non-trivial = at least one event")
 TRUSTED = bc.TRUSTED_COMMON
 PARTIAL = ("Exact times are statements about timer-exact schedules; on a late wake-up the monitor requires the event in "
            "the first iteration at or after the due time. 'Live' in 'never while live' means more than 1 s of TTL left "
            "(expires_soon convention of the crate and RFC 6762 10.1: a record in its last second is as good as gone), "
            "so a ServiceRemoved up to 1 s before the true expiry is accepted. History-level chk_C05 is a monitor, not a "
-           "theorem (refuted in the listed classes). Interface removal (C18) is outside the model.")
+           "theorem (refuted in the listed classes; its liveness judgements are tied to the model by spec_tracks_model). Interface removal (C18) is outside the model.")
 
 project = bc.project_line
 model_input = bc.model_input_line
